@@ -534,6 +534,27 @@ def r32_stack_assign(sig, body):
     return sig, body, n
 
 
+def r33_code_deref(sig, body):
+    """R33: `*self.ip` / `*self.ip.offset(E)` -> `self.code_at(self.ip)` / `self.code_at(self.ip.offset(E))` (reading the code byte at an address, by contract: outside the code is the obligation)"""
+    n = 0
+    pos = 0
+    while True:
+        m = re.compile(r'\*\s*self\s*\.\s*ip\b').search(body, pos)
+        if not m:
+            break
+        end = m.end()
+        m2 = re.match(r'\s*\.\s*offset\s*\(', body[end:])
+        if m2:
+            op = end + m2.end() - 1
+            end = _match_paren(body, op) + 1
+        inner = body[m.start() + 1:end].strip()
+        rep = 'self.code_at(%s)' % inner
+        body = body[:m.start()] + rep + body[end:]
+        pos = m.start() + len(rep)
+        n += 1
+    return sig, body, n
+
+
 def _stmt_end(body, start):
     """position of the `;` that ends the statement starting at `start` (depth 0 w.r.t. brackets), or -1"""
     mask = rsx.code_mask(body)
@@ -878,6 +899,7 @@ RULES = {
     'R30': r30_method_minmax,
     'R31': r31_loop_break_to_while,
     'R32': r32_stack_assign,
+    'R33': r33_code_deref,
 }
 
 DESCRIPTIONS = {k: (v.__doc__ or '').strip() for k, v in RULES.items()}
